@@ -2,14 +2,43 @@
     Proved: no panic, for every source text, every file map (imports included), every fuel; every successful
     sub-parse consumes at least one token, so no loop of the parser can spin without progress.
     Not proved as a theorem: that a fuel linear in the number of tokens is never exhausted (the model runs on fuel
-    supplied by the driver; an exhausted fuel would show as "hang" in the parse stream).  "Every documented form is
-    accepted": for EXPRESSIONS this is C12_every_expression_form_is_accepted (Proofs/ParseRender.v): every expression tree
-    the grammar can express -- literals, variables, lists, records, grouping, unary and binary operators, calls, indexing,
-    nested in one another to any depth -- is accepted, with enough fuel, and parsed to that very tree; for statements it is
-    covered by the parse stream (valid generated programs and every truncation of the documented statement forms). *)
+    supplied by the driver; an exhausted fuel would show as "hang" in the parse stream).  "Every program composed of the
+    documented forms is accepted" IS a theorem: C12_every_expression_form_is_accepted (Proofs/ParseRender.v: every
+    expression tree the grammar can express -- literals, variables, lists, records, grouping, unary and binary operators,
+    calls, indexing, nested to any depth -- is parsed to that very tree) and C12_documented_programs_are_accepted
+    (Proofs/StmtRender.v: every statement vector made of print / print-without-newline / declaration with and without
+    initialiser / assignment to a variable and to an indexed path / call statement / block open and close / if / else /
+    loop / break / continue / function marker / return with and without value, ending in the end marker, with well-formed
+    expressions, is accepted from some fuel on and parsed to that very vector; blocks, chains, loops and function bodies
+    are markers of the flat vector, so nesting to any depth is included).  Import statements are the subject of C14/C15. *)
 From Pakhi Require Import Base Float64 Syntax Tables Lexer Parser.
-From Pakhi.Proofs Require Import ParseTotal ParseRender.
+From Pakhi.Proofs Require Import ParseTotal ParseRender StmtRender.
 Local Open Scope nat_scope.
+
+Theorem C12_documented_programs_are_accepted : forall fs cwd main_path ss, prog_ok ss = true ->
+  existsb (fun t => tk_is (t_kind t) TIdent && text_eqb (t_lexeme t) dirname_const) (render_prog ss) = false ->
+  exists n ss', (forall f, n <= f -> parse fs cwd main_path f (render_prog ss) = Ok ss') /\ map serase ss' = map serase ss.
+Proof. exact parse_reads. Qed.
+Print Assumptions C12_documented_programs_are_accepted.
+
+(* each statement form, from some fuel on *)
+Theorem C12_each_statement_form_is_accepted : forall fs cwd main_path last mods s rest prev,
+  swf s = true -> is_eos_b s = false -> rest <> [] -> stmt_ok_after last s rest ->
+  exists n s' prev', (forall f, n <= f -> pstmt fs cwd main_path f (mkPs (consumed s ++ leftover s ++ rest) prev last mods)
+                                          = Ok (s', mkPs (leftover s ++ rest) prev' last mods)) /\ serase s' = serase s.
+Proof. exact stmt_reads. Qed.
+Print Assumptions C12_each_statement_form_is_accepted.
+
+(* non-vacuity: `নাম x = [1, 2]; x[0] = x[1] - 1 - 2; যদি x[0] < 0 { দেখাও f(x); } অথবা { ফেরত; }` as a statement vector *)
+Example C12_program_instance :
+  let v := fun c : N => EVar [c] p0 in let n := fun z => ENum (Float64.f_of_Z z) p0 in
+  let ss := [FAssign AFirst [120%N] p0 [] (Some (EList [n 1%Z; n 2%Z] p0)) p0;
+             FAssign AReassign [120%N] p0 [EList [n 0%Z] p0] (Some (EBin BSub (EBin BSub (EIndex (v 120%N) (n 1%Z) p0) (n 1%Z) p0) (n 2%Z) p0)) p0;
+             FIf (EBin BLt (EIndex (v 120%N) (n 0%Z) p0) (n 0%Z) p0) p0; FBlockStart p0; FPrint (ECall (v 102%N) [v 120%N] p0) p0; FBlockEnd p0;
+             FElse p0; FBlockStart p0; FReturn (ENil p0) p0; FBlockEnd p0; FEOS p0] in
+  prog_ok ss = true /\
+  match parse (fun _ => None) [] [109%N] 60 (render_prog ss) with Ok ss' => map serase ss' = map serase ss | _ => False end.
+Proof. vm_compute. split; reflexivity. Qed.
 
 Theorem C12_every_expression_form_is_accepted : forall e rest prev last mods, shape_ok e = true -> rest <> [] -> stop 0 (t_kind (hd last rest)) = true ->
   exists n e' t', expression n (mkPs (render (paren 0 e) ++ rest) prev last mods) = Ok (e', mkPs rest (Some t') last mods) /\
